@@ -303,10 +303,13 @@ def job_sched(j):
         if set(ids) - set(d.exec_nodes):
             col.inconclusive.append("predicted node ids not found in DAG: %s" % sorted(set(ids) - set(d.exec_nodes))[:3])
             continue
-        if rng.random() < j.get("reconfig", 0.35):
-            sp = reconfigure(rng, sp, d, ids, j.get("gen", {}).get("mc_max", 4))
-            col.counters["reconfigured_dags"] += 1
+        reconf_at = None
+        if rng.random() < j.get("reconfig", 0.45):
+            reconf_at = rng.choice([0, 1])  # before the first call, or after it (call, reload, call on one object)
         for _rep in range(j.get("reps", 2)):
+            if reconf_at == _rep:
+                sp = reconfigure(rng, sp, d, ids, j.get("gen", {}).get("mc_max", 4))
+                col.counters["reconfigured_dags_%s" % ("before_first_call" if _rep == 0 else "between_calls")] += 1
             op = pick_op(rng, sp, ids, j.get("selections", False))
             faults = []
             if j.get("faults") and rng.random() < j.get("fault_rate", 1.0):
